@@ -181,9 +181,14 @@ def run(job, streams=None):
         if not both:
             from sim.trace import where
             e = oc.exc if oc.kind == "exc" else os_.exc
+            detail = ""
+            smsg = str(getattr(os_.exc, "message", "") or os_.exc or "")
+            if "No common signature algorithms" in smsg and \
+                    "legacy:(3, 3)" not in why and why != "tls13":
+                detail = "|sigalgs_applied_below_tls12"
             v("compatible_did_not_connect",
-              "%s|%s|%s" % (why.split(":")[0], type(e).__name__,
-                            getattr(e, "description", "")),
+              "%s|%s|%s%s" % (why.split(":")[0], type(e).__name__,
+                              getattr(e, "description", ""), detail),
               "predicate says surely compatible (%s) but client=%r "
               "server=%r" % (why, oc.exc, os_.exc))
     else:
